@@ -50,6 +50,9 @@ func (v *Vue) evalInclude(ctx VueContext, node *html.Node, vars map[string]any, 
 		return nil, fmt.Errorf("error parsing %s (included from %s): %w", name, ctx.FormatTemplateChain(), err)
 	}
 
+	// Identify the component's own v-once elements (the same IDs on every include of this component)
+	assignSeenAttrs(name, compDom)
+
 	// Validate and process template tag
 	processedDom, err := v.evalTemplate(ctx, compDom, ctx.stack.EnvMap(), depth+1)
 	if err != nil {
